@@ -379,6 +379,14 @@ fn ctap_level(rep: &mut Report, seed: u64, idx: u64) {
                 m.insert(passkey_types::Bytes::from(id.clone()), v);
             }
             m.insert(passkey_types::Bytes::from(rng.bytes(16)), AuthenticatorPrfValues { first: rng.arr32(), second: None });
+            if rng.bool() {
+                // ids that merely share a prefix with the used one are different credentials
+                m.insert(passkey_types::Bytes::from(id[..8].to_vec()), AuthenticatorPrfValues { first: rng.arr32(), second: None });
+                let mut longer = id.clone();
+                longer.push(7);
+                m.insert(passkey_types::Bytes::from(longer), AuthenticatorPrfValues { first: rng.arr32(), second: None });
+                m.insert(passkey_types::Bytes::from(vec![]), AuthenticatorPrfValues { first: rng.arr32(), second: None });
+            }
             by = Some(m);
         }
         let uv_req = verified && rng.bool();
@@ -464,6 +472,7 @@ fn gen_history(rng: &mut Rng) -> Vec<Op> {
             prf,
             exclude: None,
             uv_outcome: uv_out(rng),
+            attestation: 0,
         }));
     }
     let n_auth = rng.range(2, 6);
@@ -473,6 +482,11 @@ fn gen_history(rng: &mut Rng) -> Vec<Op> {
         let allow = match rng.below(6) {
             0 => AllowSpec::Absent,
             1 => AllowSpec::Empty,
+            2 => {
+                // the used credential together with an id that is a proper prefix / an extension of it
+                let k = rng.below(4);
+                AllowSpec::Ids(vec![IdRef::Existing(k), IdRef::PrefixOf(k, 8), IdRef::ExtensionOf(k, vec![0xAB, 0xCD])])
+            }
             _ => AllowSpec::Ids((0..rng.range(1, 2)).map(|_| IdRef::Existing(rng.below(4))).collect()),
         };
         let by_cred = if rng.chance(1, 2) {
@@ -482,6 +496,8 @@ fn gen_history(rng: &mut Rng) -> Vec<Op> {
                     0 => KeyRef::Raw(String::new()),
                     1 => KeyRef::Raw("!!!!".into()),
                     2 => KeyRef::Raw(oracle::b64url(&rng.bytes(16))),
+                    3 => KeyRef::PrefixOf(rng.below(4), 8),
+                    4 => KeyRef::ExtensionOf(rng.below(4), vec![0xAB, 0xCD]),
                     _ => KeyRef::Existing(rng.below(4)),
                 };
                 v.push((key, gen_eval(rng, hashed && !both, true)));
